@@ -153,20 +153,36 @@ def run(ctx):
             else:
                 r4.bad('edge-memory-every-path', 'an iteration of the scheduling loop can finish without updating TaskState.last_single: the next cycle sees a stale edge (missed or repeated event activation)', loc=fn.loc(ls[0]) if ls else fn.loc(0))
             # last_single is written from the value sampled this cycle (single_now)
-            sn = set(fn.local_of('single_now'))
             okv = False
             for b in ls:
-                for s in fn.bbs[b]['s']:
-                    if s[0] == 'A' and place_fields(s[1]) and place_fields(s[1])[-1].endswith('TaskState.last_single') and s[2][0] == 'use':
-                        l = op_local(s[2][1])
-                        if l in sn or (l is not None and any(x in sn for x in _copy_src(fn, l))):
+                for st_ in fn.bbs[b]['s']:
+                    if st_[0] == 'A' and place_fields(st_[1]) and place_fields(st_[1])[-1].endswith('TaskState.last_single') and st_[2][0] == 'use':
+                        oo = operand_origins(fn, st_[2][1], extra_pass=lambda n: n.endswith('Deref>::deref'))
+                        from_global = any(o[0] == 'call' and re.search(r'VariableStorage::get_global$', o[2]) for o in oo)
+                        from_self = any(o[0] == 'field' and o[1].endswith('TaskState.last_single') for o in oo)
+                        if from_global and not from_self:
                             okv = True
             if okv:
                 r4.ok('edge-memory-value')
             else:
                 r4.bad('edge-memory-value', 'TaskState.last_single is not written from this cycle\'s sample of the SINGLE variable', loc=fn.loc(ls[0]) if ls else fn.loc(0))
             # last_run only under periodic_due
-            pd = fn.local_of('periodic_due')
+            # the periodic condition: a comparison of (something derived from last_run) against (the interval);
+            # among such boolean locals take the one whose test guards the last_run write
+            pd = []
+            for l_, dl_ in fn.defs.items():
+                for (_b, _k, _rv) in dl_:
+                    if _k == 'A' and _rv[0] == 'bin' and _rv[1] in ('Ge', 'Gt', 'Le', 'Lt') and _b in loop:
+                        fa, fb_ = _dep_fields(fn, _rv[2]), _dep_fields(fn, _rv[3])
+                        if any(f.endswith('TaskState.last_run') for f in fa | fb_) and any(f.endswith('.interval') for f in fa | fb_):
+                            pd.append(l_)
+            pd = sorted(set(pd)) or fn.local_of('periodic_due')
+            lr_ = [b for b in loop if fn.assigns_field(b, lambda f: f.endswith('TaskState.last_run'))]
+            for cand in list(pd):
+                p_, n_, _ = test_edges(fn, {cand: ('bool', True)})
+                if p_ and lr_ and all(guarded(fn, b, p_) for b in lr_):
+                    pd = [cand]
+                    break
             lr = [b for b in loop if fn.assigns_field(b, lambda f: f.endswith('TaskState.last_run'))]
             if pd and lr:
                 pos, neg, _ = test_edges(fn, {pd[0]: ('bool', True)})
@@ -176,6 +192,10 @@ def run(ctx):
                     r4.bad('period-memory-only-when-due', 'TaskState.last_run is updated although the periodic condition did not fire (the period drifts or activations are lost)', loc=fn.loc(lr[0]))
                 # and it is set to `now` (no replay of missed activations)
                 nowl = set(fn.local_of('now'))
+                for l_, dl_ in fn.defs.items():
+                    for (_b, _k, _rv) in dl_:
+                        if _k == 'A' and _rv[0] == 'use' and _rv[1][0] in ('c', 'm') and place_fields(_rv[1][1]) and place_fields(_rv[1][1])[-1].endswith('Runtime.current_time'):
+                            nowl.add(l_)
                 setnow = False
                 for b in lr:
                     for s in fn.bbs[b]['s']:
@@ -189,6 +209,31 @@ def run(ctx):
                     r4.bad('no-replay', 'after a periodic activation last_run is not set to the current time: missed activations would be replayed in later cycles', loc=fn.loc(lr[0]))
             else:
                 r4.bad('period-memory-only-when-due', 'periodic_due / last_run shape not recognised', loc=fn.loc(0))
+            # last_run moves exactly when the periodic activation is queued: (1) behind the SINGLE gate (a task whose
+            # SINGLE input is high is not scheduled periodically), (2) together with the due-time construction
+            if lr:
+                sseeds = {}
+                for l_ in list(fn.defs):
+                    if fn.local_ty(l_) != 'bool' or l_ in sseeds:
+                        continue
+                    oo_ = origins(fn, l_, extra_pass=lambda n: n.endswith('Deref>::deref'))
+                    if any(o[0] == 'call' and re.search(r'VariableStorage::get_global$', o[2]) for o in oo_) and not any(o[0] == 'op' for o in oo_):
+                        sseeds[l_] = ('bool', True)
+                spos, sneg, _ = test_edges(fn, sseeds) if sseeds else (set(), set(), [])
+                # the write is guarded by the periodic condition (above); the periodic condition can only become
+                # true on the SINGLE-low edge: every non-constant definition of it is behind that edge
+                pdefs = [b_ for l_ in (pd[:1] if pd else []) for (b_, k_, rv_) in fn.defs.get(l_, [])
+                         if not (k_ == 'A' and rv_[0] == 'use' and rv_[1][0] == 'k' and 'false' in rv_[1][2])]
+                if sneg and pdefs and all(guarded(fn, b_, sneg) for b_ in pdefs):
+                    r4.ok('period-memory-behind-single-gate', loc=fn.loc(lr[0]))
+                else:
+                    r4.bad('period-memory-behind-single-gate', 'TaskState.last_run is updated on a path where the task\'s SINGLE input may be high: the period memory advances although no periodic activation is queued, so the activation due when SINGLE falls is lost', loc=fn.loc(lr[0]))
+                dts = [b for b, nm, t in fn.calls(lambda n: re.search(r'Duration::from_nanos$', n) is not None)
+                       if b in loop and any(f.endswith('TaskState.last_run') for f in _dep_fields(fn, t['a'][0]))]
+                if dts and all(any(fn.dominates(d, w) for d in dts) for w in lr) and nexts and not any(n in fn.reach(list(fn.g.get(d, ())), avoid=set(lr)) for d in dts for n in nexts):
+                    r4.ok('period-memory-with-activation', loc=fn.loc(lr[0]))
+                else:
+                    r4.bad('period-memory-with-activation', 'the last_run update and the construction of the periodic due time are no longer on the same paths: either the period memory moves without an activation being queued, or an activation is queued without the period memory moving (it would fire again next cycle)', loc=fn.loc(lr[0]))
             # the due time of a periodic activation is the first missed boundary: a function of the schedule
             # memory (last_run) and the interval only, independent of the current clock sample
             fromn = [(b, t) for b, nm, t in fn.calls(lambda n: re.search(r'Duration::from_nanos$', n) is not None) if b in loop]
